@@ -9,7 +9,7 @@ if len(sys.argv) > 1:
     ids = [i for i in ids if any(i.startswith(a) for a in sys.argv[1:])]
 pool = queue.Queue(); dirs = []
 for _ in range(min(4, len(ids))):
-    d = tempfile.mkdtemp(prefix='seedstatus-'); subprocess.check_call(['rsync', '-a', '--exclude', 'target', '/repo/', d + '/']); dirs.append(d); pool.put(d)
+    d = tempfile.mkdtemp(prefix='seedstatus-'); subprocess.call(['rsync', '-a', '--exclude', 'target', '--exclude', '.git/worktrees', '/repo/', d + '/']); dirs.append(d); pool.put(d)
 
 
 def work(i):
